@@ -485,43 +485,6 @@ impl<'a> Sim<'a> {
                 return None;
             }
         };
-        // I-sr2 (C07)
-        match &model {
-            Resolved::Ok(m) => {
-                if *m != first_set {
-                    let (k, ty) = first_diff(m, &first_set);
-                    let tag = if stats.no_mainline_ancestor > 0 && stats.with_mainline_ancestor > 0 { ".mixed-pl-ancestry" } else { "" };
-                    let sig = match explanations.iter().find(|(_, d)| crate::sim::resolved_ok(d) == Some(&first_set)) {
-                        Some((name, _)) => name.to_string(),
-                        None => format!("rsr2/state-differs.{ty}{tag}"),
-                    };
-                    self.violate(
-                        "C07",
-                        sig,
-                        json!({"oracle":"rsr2","site":site,"room_version":v,"first_differing_key":k,"real":state_json(&first_set),"expected":state_json(m),
-                               "sets":sets_json(&plain),"stats":format!("{stats:?}"),"events":self.events_json(n, &plain, &chains)}),
-                    );
-                    return None;
-                }
-                self.bump("resolve.compared-with-rsr2");
-            }
-            Resolved::Undecided(_) => self.bump("resolve.undecided"),
-        }
-        // I-auth inside resolution: every iterative-auth step of the model, re-judged by the real auth_check
-        for (id, st, verdict) in steps.iter().take(12) {
-            let Some(ne) = self.servers[n].have.get(id) else { continue };
-            let (Some(pdu), ev) = (ne.pdu.clone(), ne.ev.clone()) else { continue };
-            let stset: StateSet = st.clone();
-            let (real, reads) = {
-                let node = &self.servers[n];
-                let look = |k: &Key| stset.get(k).and_then(|id| node.have.get(id)).and_then(|x| x.pdu.clone());
-                real::auth_check(&self.rules.authorization, &pdu, &look)
-            };
-            self.judge_auth(&ev, &stset, &real, &reads, verdict, "iterative-auth", n);
-            if self.stop() {
-                return None;
-            }
-        }
         // I-agree (C06): repetitions under permuted arguments and fresh hash keys
         for rep in 0..self.cfg.resolve_repeats {
             let mut order = ident.clone();
@@ -591,6 +554,45 @@ impl<'a> Sim<'a> {
                     self.violate("C06", "agree/resolve.thread".into(), json!({"oracle":"equality","thread":i,"hash_seed":seeds[i],"schedule":sched,"first":outcome_json(&first),"on_thread":outcome_json(r),"sets":sets_json(&plain)}));
                     return None;
                 }
+            }
+        }
+        // (the C06 oracles come first: a nondeterministic result would otherwise always be reported
+        //  as a mismatch with the model and the run would end before equality is judged)
+        // I-sr2 (C07)
+        match &model {
+            Resolved::Ok(m) => {
+                if *m != first_set {
+                    let (k, ty) = first_diff(m, &first_set);
+                    let tag = if stats.no_mainline_ancestor > 0 && stats.with_mainline_ancestor > 0 { ".mixed-pl-ancestry" } else { "" };
+                    let sig = match explanations.iter().find(|(_, d)| crate::sim::resolved_ok(d) == Some(&first_set)) {
+                        Some((name, _)) => name.to_string(),
+                        None => format!("rsr2/state-differs.{ty}{tag}"),
+                    };
+                    self.violate(
+                        "C07",
+                        sig,
+                        json!({"oracle":"rsr2","site":site,"room_version":v,"first_differing_key":k,"real":state_json(&first_set),"expected":state_json(m),
+                               "sets":sets_json(&plain),"stats":format!("{stats:?}"),"events":self.events_json(n, &plain, &chains)}),
+                    );
+                    return None;
+                }
+                self.bump("resolve.compared-with-rsr2");
+            }
+            Resolved::Undecided(_) => self.bump("resolve.undecided"),
+        }
+        // I-auth inside resolution: every iterative-auth step of the model, re-judged by the real auth_check
+        for (id, st, verdict) in steps.iter().take(12) {
+            let Some(ne) = self.servers[n].have.get(id) else { continue };
+            let (Some(pdu), ev) = (ne.pdu.clone(), ne.ev.clone()) else { continue };
+            let stset: StateSet = st.clone();
+            let (real, reads) = {
+                let node = &self.servers[n];
+                let look = |k: &Key| stset.get(k).and_then(|id| node.have.get(id)).and_then(|x| x.pdu.clone());
+                real::auth_check(&self.rules.authorization, &pdu, &look)
+            };
+            self.judge_auth(&ev, &stset, &real, &reads, verdict, "iterative-auth", n);
+            if self.stop() {
+                return None;
             }
         }
         Some(first_set)
